@@ -328,11 +328,19 @@ func (p *plParser) job() plJob {
 	return j
 }
 
-func (p *plParser) at() (step, tear int) {
+// at: AT <step> <tear|->  or  AT <step> u<n>: no kill, but the archive is served truncated to n bytes (trunc = n), so that
+// Install stops by itself inside Unarchive — the state a kill inside Unarchive would leave
+func (p *plParser) at() (step, tear, trunc int) {
 	p.expect("AT")
 	step, _ = strconv.Atoi(p.next())
-	tear = -1
-	if t := p.next(); t != "-" {
+	tear, trunc = -1, -1
+	t := p.next()
+	switch {
+	case t == "-":
+	case strings.HasPrefix(t, "u"):
+		trunc, _ = strconv.Atoi(t[1:])
+		step = -1
+	default:
 		tear, _ = strconv.Atoi(t)
 	}
 	return
@@ -553,6 +561,13 @@ func silenced(f func() error) error {
 
 // install runs the real PluginManager.Install for the job.
 func (w *plWorld) install(vt []plVer, ct []plCon, j plJob, step, tear int) (stopped string, err error) {
+	return w.installTrunc(vt, ct, j, step, tear, -1)
+}
+
+func (w *plWorld) installTrunc(vt []plVer, ct []plCon, j plJob, step, tear, trunc int) (stopped string, err error) {
+	if trunc >= 0 && trunc < len(j.archive) {
+		j.archive = j.archive[:trunc]
+	}
 	s := pluginServer()
 	type mv struct {
 		Number string `json:"number"`
